@@ -61,6 +61,7 @@ func genEngine(c *Ctx) error {
 		directedWALShrink(c)
 		directedWALGrowShrinkCheckpoint(c)
 		directedWALRestartRollback(c)
+		directedModeRoundTrip(c)
 	}
 	if c.Flag("drop") {
 		directedDropRestart(c)
@@ -460,6 +461,40 @@ func directedWALRestartRollback(c *Ctx) {
 		check("after the next commit")
 		c.Count("directed.wal-restart-rollback")
 		c.Nontrivial(fmt.Sprintf("directed-wal-restart-rollback-%d", ps))
+		cs.End()
+	}
+}
+
+// directedModeRoundTrip: journal_mode=wal and back to journal_mode=delete / truncate / persist: the
+// switch back rewrites page 1 through a rollback journal while LiteFS still has the database
+// recorded as a WAL database; it is a transaction like any other (the position advances by one,
+// the file holds the new page 1), and so are the journal transactions that follow.
+func directedModeRoundTrip(c *Ctx) {
+	r := c.Rng
+	for _, jm := range []string{"DELETE", "TRUNCATE", "PERSIST"} {
+		cs := c.Begin()
+		do := func(op string) string { c.Count("op." + strings.SplitN(op, " ", 2)[0]); return cs.Do(op) }
+		p := newPager(r, pick(r, []int{512, 4096}), do)
+		p.journalMode = jm
+		do("open primary")
+		do("createdb")
+		p.journalTx(p.randomShape(4), 0, 0)
+		observe(c, cs, p, "directed mode round trip: created")
+		p.wal = true
+		p.journalTx(txShape{newN: len(p.img), pages: map[int]bool{1: true}, commit: true}, 0, 0)
+		observe(c, cs, p, "directed mode round trip: to wal")
+		p.walTx(p.randomShape(3), false, false, false)
+		observe(c, cs, p, "directed mode round trip: wal transaction")
+		if !p.toRollback() {
+			c.Fail("directed mode round trip: the switch back to a rollback journal was refused")
+		}
+		observe(c, cs, p, "directed mode round trip: back to "+jm)
+		p.journalTx(p.randomShape(3), 0, 0)
+		observe(c, cs, p, "directed mode round trip: journal transaction after the switch")
+		p.journalTx(p.randomShape(3), 0, 0)
+		observe(c, cs, p, "directed mode round trip: second journal transaction")
+		c.Count("directed.mode-round-trip")
+		c.Nontrivial("directed-mode-round-trip-" + jm)
 		cs.End()
 	}
 }
